@@ -11,13 +11,14 @@ from .c03 import quiet, close, embed_cols, err_site, names_meta
 
 ID = "C04"
 LEAN_MODULES = ["NiftyVerif.Core.Proto", "NiftyVerif.Model.Expr", "NiftyVerif.Model.ExprIO", "NiftyVerif.Model.PartialEval",
-                "NiftyVerif.Props.C04", "NiftyVerif.Props.C04Metric", "NiftyVerif.Props.C04Ham", "NiftyVerif.Props.C04Keys"]
+                "NiftyVerif.Props.C04", "NiftyVerif.Props.C04Metric", "NiftyVerif.Props.C04Ham", "NiftyVerif.Props.C04Keys", "NiftyVerif.Props.C04Presence"]
 DRIVER = "Driver/C04.lean"
 TRANSLATORS = [t2_pointwise.translate]
 OBLIGATIONS = ["NiftyVerif.C04." + t for t in (
     "eval_congr", "lin_congr_env", "jac_congr", "pe_target", "pe_sound", "pe_jac", "jac_zero",
     "partialVar_grad_zero", "partialVar_eq_pe", "energyAdapter_constants", "adj_support", "pe_adj", "metric_congr",
-    "metric_support", "pe_metric_partial", "hamiltonian_pe_offset_partial", "pe_keys", "cout_none")]
+    "metric_support", "pe_metric_partial", "hamiltonian_pe_offset_partial", "pe_keys", "cout_none", "metric_isSome_iff", "pe_isLH", "pe_metric_presence",
+    "pe_metric_presence_witness")]
 RULE = ("generated multi-domain operator/energy trees (as C03, >= 2 input keys) x EVERY non-empty proper subset of the "
         "operator's input keys as constants; per (tree, subset): real simplify_for_constant_input vs original with the "
         "constants inserted (value, dense Jacobian, adjoint, metric), EnergyAdapter(constants=...), make_partial_var, "
